@@ -1,4 +1,126 @@
-(** C12 — placeholder while the proofs are being written. *)
-From DivanV Require Import Base.Res Model.Registry Model.Tree Model.Driver.
-Theorem C12_tmp : is_list List = true.
-Proof. reflexivity. Qed.
+(** C12 — every #[divan::bench] / #[divan::bench_group] item is registered exactly once.
+    Statements only.  PARTIAL at proof level: the linker / .init_array constructor
+    mechanism and [syn] parsing are exercised end to end by generated crates
+    (tools/props/c12.py), not modelled; the theorems start from the two global
+    entry lists (tree level) and from abstract programs (macro level). *)
+From Coq Require Import Permutation.
+From DivanV Require Import Base.Res Model.Registry Model.Tree Model.Driver
+  Proofs.TreeBase Proofs.DriverExec Proofs.DriverC14 Proofs.TreeLeaves Proofs.Flat Proofs.Expand.
+Local Open Scope N_scope.
+
+(** The leaves of the tree are the registered entries — each exactly once, under
+    the raw path its module path (plus, for generic entries, function name and
+    type) spells, with all its arguments; nothing else. *)
+Theorem C12_tree_complete : forall benches groups,
+  Permutation (raw_leaves (build_tree benches groups)) (map rleaf_of (all_entries benches groups)).
+Proof. exact tree_complete. Qed.
+Print Assumptions C12_tree_complete.
+
+(** Sibling modules are merged: at every level parent names are distinct, i.e.
+    the tree is the trie of the raw paths (so it is determined, up to sibling
+    order, by its leaves). *)
+Theorem C12_modules_merged : forall benches groups, trie_forest (build_tree benches groups).
+Proof. exact modules_merged. Qed.
+Print Assumptions C12_modules_merged.
+
+Theorem C12_order_independent_leaves : forall es es',
+  Permutation es es' -> Permutation (raw_leaves (from_benches es)) (raw_leaves (from_benches es')).
+Proof. exact order_independent_leaves. Qed.
+Print Assumptions C12_order_independent_leaves.
+
+(** Groups attach by key: in the built tree the chain of (raw name, group) pairs
+    above every leaf is a function of the leaf's raw path alone — the slot at
+    prefix P holds the last registered group whose module path + raw name is P
+    ([keyed_chain]); group insertion changes nothing else. *)
+Theorem C12_groups_attach : forall benches groups,
+  flat_map leaves_rel (build_tree benches groups)
+  = map (rekey groups) (raw_leaves (build_tree benches groups)).
+Proof. exact build_tree_leaves_rel. Qed.
+Print Assumptions C12_groups_attach.
+
+(** Hence what a run executes (any ignore flag, run-time options, filter) is,
+    as a multiset, what the entries say one by one: display path and options
+    of every case come from its own raw path and the groups keyed by its
+    prefixes. *)
+Theorem C12_registered_cases : forall c benches groups,
+  Permutation (exec_forest c [] None (retain (c_filter c) (build_tree benches groups)))
+              (filter (fun x => c_filter c (xpath x)) (flat_map (keyed_case c groups) (all_entries benches groups))).
+Proof. exact exec_keyed_filtered. Qed.
+Print Assumptions C12_registered_cases.
+
+(** With --include-ignored and no filter every registered case runs exactly
+    once: one call per plain entry, one per argument value. *)
+Theorem C12_all_run_once : forall benches groups,
+  Permutation (map call_of (exec_forest cfg_all [] None (retain (c_filter cfg_all) (build_tree benches groups))))
+              (flat_map entry_calls (all_entries benches groups)).
+Proof. exact all_run_once. Qed.
+Print Assumptions C12_all_run_once.
+
+(** Link / constructor order is irrelevant as long as no two group entries
+    have the same key. *)
+Theorem C12_order_independent : forall c benches groups benches' groups',
+  Permutation benches benches' -> Permutation groups groups' -> NoDup (map group_key groups) ->
+  Permutation (exec_forest c [] None (retain (c_filter c) (build_tree benches groups)))
+              (exec_forest c [] None (retain (c_filter c) (build_tree benches' groups'))).
+Proof. exact order_independent. Qed.
+Print Assumptions C12_order_independent.
+
+(** Without that guard the property FAILS in divan (finding F8): a module and a
+    generic function of the same name share one node; the bench_group's
+    [ignore] is lost or not depending on registration order.
+    Full statement that cannot hold: [forall groups', Permutation groups groups' -> ...]
+    without [NoDup (map group_key groups)]. *)
+Theorem C12_name_clash_refuted :
+  runs_a (flat_exec cfg_plain [w_bench_a] [w_mod_group; w_fn_group]) = false /\
+  runs_a (exec_forest cfg_plain [] None (build_tree [w_bench_a] [w_mod_group; w_fn_group])) = true /\
+  runs_a (exec_forest cfg_plain [] None (build_tree [w_bench_a] [w_fn_group; w_mod_group])) = false.
+Proof. exact name_clash_refuted. Qed.
+Print Assumptions C12_name_clash_refuted.
+
+(** Macro level: one [#[divan::bench]] registers nothing for exclusively empty
+    [types]/[consts]; one [BenchEntry] without generics; otherwise one
+    [GroupEntry] whose generic entries are exactly the types x consts product
+    (types outer, consts inner), all sharing the function's argument list and
+    numbered consecutively. *)
+Theorem C12_expand_empty : forall mp n b,
+  generic_is_empty (bd_types b) (bd_consts b) = true -> expand_bench mp n b = Ok ([], [], n).
+Proof. exact expand_bench_empty. Qed.
+Print Assumptions C12_expand_empty.
+
+Theorem C12_expand_plain : forall mp n b,
+  bd_types b = None -> bd_consts b = None ->
+  expand_bench mp n b = Ok ([{| b_id := n; b_meta := bench_meta mp b; b_runner := runner_of n (bd_args b) |}], [], n + 1).
+Proof. exact expand_bench_plain. Qed.
+Print Assumptions C12_expand_plain.
+
+Theorem C12_expand_exact : forall mp n b,
+  generic_is_empty (bd_types b) (bd_consts b) = false ->
+  (bd_types b <> None \/ bd_consts b <> None) ->
+  consts_compile (bd_consts b) ->
+  exists rows,
+    expand_bench mp n b
+    = Ok ([], [{| g_id := n; g_meta := bench_meta mp b; g_generic := Some rows |}], n + 1 + N.of_nat (length (concat rows)))
+    /\ map (map ge_kind) rows = expected_kinds (bd_types b) (consts_values (bd_consts b))
+    /\ (forall e, In e (concat rows) -> ge_runner e = runner_of n (bd_args b))
+    /\ map ge_id (concat rows) = map (fun i => n + 1 + N.of_nat i) (seq 0 (length (concat rows))).
+Proof. exact expand_bench_generic. Qed.
+Print Assumptions C12_expand_exact.
+
+Theorem C12_expand_product_count : forall types cs,
+  length (concat (expected_kinds types (Some cs))) = (length (types_iter types) * length cs)%nat.
+Proof. exact expected_kinds_count. Qed.
+Print Assumptions C12_expand_product_count.
+
+(** External consts: 1..20 values are all registered, 0 or more than 20 do not compile. *)
+Theorem C12_extern_consts : forall cs,
+  ((0 < length cs <= max_extern_count)%nat -> extern_consts cs = Ok cs) /\
+  ((max_extern_count < length cs)%nat -> extern_consts cs = Panic Other) /\
+  extern_consts [] = Panic OutOfBounds.
+Proof. exact (fun cs => conj (extern_consts_ok cs) (conj (extern_consts_too_many cs) extern_consts_none)). Qed.
+Print Assumptions C12_extern_consts.
+
+(** The specification evaluated on the implementation's output. *)
+Theorem C12_flat_sb_meaning : forall expected got,
+  c12_flat_sb expected got = true <-> Permutation expected got.
+Proof. exact multiset_eqb_spec. Qed.
+Print Assumptions C12_flat_sb_meaning.
